@@ -1632,13 +1632,16 @@ fn generate_type_impl(
                 RWTexture3D(ty) => build_texture("texture3d", ty, true, context)?,
 
                 ConstantBuffer(id) => {
-                    let mut ty = generate_type(id, context)?;
+                    // The constant address space already makes the contents immutable
+                    let (unmodified_id, mut modifier) =
+                        context.module.type_registry.extract_modifier(id);
+                    modifier.is_const = false;
+                    let id = context
+                        .module
+                        .type_registry
+                        .combine_modifier(unmodified_id, modifier);
 
-                    assert!(
-                        !ty.modifiers
-                            .modifiers
-                            .contains(&Located::none(ast::TypeModifier::Const))
-                    );
+                    let mut ty = generate_type(id, context)?;
 
                     ty.modifiers
                         .prepend(Located::none(ast::TypeModifier::AddressSpace(
